@@ -3,7 +3,7 @@ CONSTANTS
   Names = {"n1", "n2"}
   SizeSel = "edge"
   Limit = 2
-  Single = TRUE
+  FName = "foo.vpk"
   ArchIdx <- IdxAll
   NArch = 2
   Cs <- CsAll
